@@ -18,6 +18,7 @@ import (
 	"net/url"
 	"os"
 	"path/filepath"
+	"runtime"
 	"sort"
 	"strings"
 	"sync"
@@ -45,7 +46,7 @@ var (
 	caCert  *x509.Certificate
 	intKey  *ecdsa.PrivateKey
 	intCert *x509.Certificate
-	serial atomic.Int64
+	serial  atomic.Int64
 )
 
 func initCA() {
@@ -93,8 +94,8 @@ func initCA() {
 // ---- scripted issuer
 
 type window struct {
-	Name     string
-	NB, NA   time.Duration // relative to the request instant
+	Name   string
+	NB, NA time.Duration // relative to the request instant
 }
 
 var windows = []window{
@@ -143,6 +144,18 @@ type issuer struct {
 	anchorsV atomic.Int64
 	// probe: set in renewal scenarios; called by the issuer while a renewal request is in flight
 	probe func(k int, lastGood int64)
+	// kick: poked when a renewal request is about to return, so that a consumer asks for the SVID at the
+	// very moment the rotation publishes the new one
+	kick chan struct{}
+}
+
+func (is *issuer) poke() {
+	if is.kick != nil {
+		select {
+		case is.kick <- struct{}{}:
+		default:
+		}
+	}
 }
 
 var errIssuer = errors.New("issuer: scripted failure")
@@ -179,6 +192,7 @@ func (is *issuer) request(ctx context.Context, csrDER []byte) ([]*x509.Certifica
 			is.probe(k, lastGood)
 		}
 		time.Sleep(time.Millisecond)
+		defer is.poke()
 	}
 	csr, err := x509.ParseCertificateRequest(csrDER)
 	if err != nil {
@@ -257,7 +271,7 @@ func (a anchors) CurrentTrustAnchors(context.Context) ([]byte, error) {
 	return []byte(fmt.Sprintf("anchors-v%d", a.is.anchorsV.Load())), nil
 }
 func (a anchors) Watch(ctx context.Context, _ chan<- []byte) { <-ctx.Done() }
-func (a anchors) Run(ctx context.Context) error               { <-ctx.Done(); return nil }
+func (a anchors) Run(ctx context.Context) error              { <-ctx.Done(); return nil }
 
 // ---- world
 
@@ -266,17 +280,16 @@ type world struct {
 	mode  string
 	desc  string
 	steps []string
-	viol  bool
+	viol  atomic.Bool
 	is    *issuer
 }
 
 func (w *world) step(s string) { w.steps = append(w.steps, s); rec.Progress() }
 
 func (w *world) violation(sig, msg string) {
-	if w.viol {
+	if w.viol.Swap(true) {
 		return
 	}
-	w.viol = true
 	var rq []string
 	if w.is != nil {
 		for i, r := range w.is.snapshot() {
@@ -319,7 +332,7 @@ func TestCheck(t *testing.T) {
 	defer rec.Close()
 	initCA()
 	rec.Note("rule", "a case is one scenario against the real SPIFFE object in a synctest bubble with a scripted issuer signing real SVIDs: (order) each of the six first-call orders of Run / Ready / GetX509SVID from separate goroutines x initial fetch succeeding or failing x consumer additionally parked inside GetX509SVID while it holds the read lock; (renewal) a seeded script of 3-8 issuer outcomes (validity windows from 2 s to 30 days, already past half-life, expired, not yet valid; failures: an issuer error, an empty answer, or a signed chain without a usable SPIFFE ID) with the virtual clock advanced in seeded steps of seconds to hours, optionally writing the identity to a directory and rotating the trust anchors. Non-trivial = the issuer received at least one request; distinct = distinct scenario description.")
-	rec.Note("require", []string{"order.get_first", "order.ready_first", "order.run_first", "order.initial_fetch_failed", "order.second_run_refused", "order.consumer_parked_with_rlock", "renewal.requests", "renewal.on_time", "renewal.retry_after_failure", "renewal.served_latest_checked", "renewal.fresh_keys_checked", "renewal.unusable_answer_scripted", "renewal.get_during_inflight_renewal", "files.sets_checked", "files.undisturbed_after_failed_fetch"})
+	rec.Note("require", []string{"order.get_first", "order.ready_first", "order.run_first", "order.initial_fetch_failed", "order.second_run_refused", "order.consumer_parked_with_rlock", "renewal.requests", "renewal.on_time", "renewal.retry_after_failure", "renewal.served_latest_checked", "renewal.fresh_keys_checked", "renewal.unusable_answer_scripted", "renewal.get_during_inflight_renewal", "renewal.consumer_get_at_publication", "files.sets_checked", "files.undisturbed_after_failed_fetch"})
 	ps := plans()
 	rec.Planned(len(ps))
 	for idx, pl := range ps {
@@ -592,7 +605,7 @@ func runRenewal(t *testing.T, idx int, rng *mon.RNG) {
 		s := newSpiffe(is, dp)
 		src := s.SVIDSource()
 		is.probe = func(k int, lastGood int64) {
-			if lastGood == 0 || w.viol {
+			if lastGood == 0 || w.viol.Load() {
 				return
 			}
 			type res struct {
@@ -625,6 +638,43 @@ func runRenewal(t *testing.T, idx int, rng *mon.RNG) {
 		if err := s.Ready(ctx); err != nil {
 			w.violation("renewal/ready-error", fmt.Sprintf("Ready returned %v", err))
 		}
+		// an independent consumer keeps asking for the SVID on its own schedule while the rotation runs
+		// (unsynchronised with the harness: the race detector sees its reads against the rotation's writes);
+		// what it is served never goes back to an older certificate
+		is.kick = make(chan struct{}, 1)
+		consStop := make(chan struct{})
+		consDone := make(chan struct{})
+		crng := mon.NewRNG("c19-consumer", idx)
+		go func() {
+			defer close(consDone)
+			var lastSerial int64
+			for {
+				select {
+				case <-consStop:
+					return
+				case <-time.After(time.Millisecond << crng.Intn(23)): // 1 ms .. ~70 min
+				case <-is.kick:
+					rec.Count("renewal.consumer_get_at_publication", 1)
+				}
+				runtime.Gosched()
+				v, err := src.GetX509SVID()
+				if err != nil || v == nil {
+					w.violation("renewal/get-error", fmt.Sprintf("a consumer's GetX509SVID returned %v after the initial fetch had succeeded", err))
+					return
+				}
+				sn := v.Certificates[0].SerialNumber.Int64()
+				if sn < lastSerial {
+					w.violation("renewal/served-svid-went-back", fmt.Sprintf("a consumer was served serial %d after it had been served %d", sn, lastSerial))
+					return
+				}
+				lastSerial = sn
+				rec.Count("renewal.consumer_gets", 1)
+			}
+		}()
+		defer func() {
+			close(consStop)
+			<-consDone
+		}()
 		judged := 0
 		seenPub := map[string]int{}
 		lastGood := int64(0)
@@ -703,7 +753,7 @@ func runRenewal(t *testing.T, idx int, rng *mon.RNG) {
 						}
 					}
 					checkFiles(w, target, want)
-					if !reqs[judged-1].ok && !w.viol {
+					if !reqs[judged-1].ok && !w.viol.Load() {
 						rec.Count("files.undisturbed_after_failed_fetch", 1)
 					}
 				}
@@ -711,7 +761,7 @@ func runRenewal(t *testing.T, idx int, rng *mon.RNG) {
 		}
 		check()
 		// drive the clock until the script (plus one) has been consumed
-		for iter := 0; iter < 400 && !w.viol; iter++ {
+		for iter := 0; iter < 400 && !w.viol.Load(); iter++ {
 			reqs := is.snapshot()
 			if len(reqs) > n {
 				break
@@ -757,7 +807,7 @@ func runRenewal(t *testing.T, idx int, rng *mon.RNG) {
 			time.Sleep(d)
 			synctest.Wait()
 			check()
-			if !w.viol && !last.end.IsZero() && !time.Now().Before(next) {
+			if !w.viol.Load() && !last.end.IsZero() && !time.Now().Before(next) {
 				// the deadline has passed: the next request must have been made
 				if len(is.snapshot()) == len(reqs) {
 					lastDesc := "successful"
